@@ -406,7 +406,8 @@ def oracle_valid(hout, case):
         return ("rdec-malformed", f"malformed harness output `{hout[:200]}` for {replay_hint(case)}")
     if d["valid"] != "ok":
         e, _, what = d["valid"].partition(":")
-        return ("decoded-geometry-invalid", f"{ENTRY.get(e, e)} reported success but the geometry is not structurally valid: "
+        tk = next((t for t in case.tags if t.startswith("tamper:")), None)
+        return ("decoded-geometry-invalid" + (":" + tk if tk else ""), f"{ENTRY.get(e, e)} reported success but the geometry is not structurally valid: "
                 f"{what.replace('_', ' ')} for {replay_hint(case)}")
     return None
 
@@ -576,7 +577,7 @@ def expect_model(hout, mout, case):
     if seq and not mp[0].startswith("unsupported"):
         if int(mkv.get("declared", 0)) != int(d.get("declared", 0)) and d.get("e1") != "badalloc":
             return (f"declared element count: harness parse {d.get('declared')} model {mkv.get('declared')} for {replay_hint(case)}")
-    if mkv.get("valid") == "0":
+    if mkv.get("valid") == "0" and seq:
         return f"model accepted a geometry that is not valid (contradicts decode_ok_valid) for {replay_hint(case)}"
     return None
 
@@ -601,7 +602,9 @@ def make_case(data, skip, flavour, oracles, tags, with_model=True, cap=CAP, base
             return v
         d = parse_rdec(hout)
         acc = [e for e in ("e1", "e2", "e3", "e4", "e5", "e6") if d.get(e) == "ok"]
-        case.tags = tuple(case.tags) + (("outcome:accepted" if acc else "outcome:rejected") if "type" in d else "outcome:?",)
+        oc = ("accepted" if acc else "rejected") if "type" in d else "?"
+        tk = next((t for t in case.tags if t.startswith("tamper:")), None)
+        case.tags = tuple(case.tags) + ("outcome:" + oc,) + ((tk + ":" + oc,) if tk else ())
         for f in oracles:
             v = f(hout, case)
             if v is not None:
@@ -652,6 +655,12 @@ def regression_cases(flavour, oracles, kd=True):
         if len(b) >= 176:
             b[172:176] = bytes.fromhex("ffffff7f")
             out.append(make_case(bytes(b), "01234", flavour, oracles, ("regression", "tex_coords_portable_orientations")))
+    # (3) Edgebreaker stream with one impossible traversal symbol (tamper campaign): before fix dcc9947 it was accepted
+    # with three points that no face uses and that map to kInvalidAttributeValueIndex
+    p = os.path.join(os.path.dirname(os.path.abspath(__file__)), "data", "robust_regression_eb_tamper.hex")
+    if os.path.exists(p):
+        out.append(make_case(bytes.fromhex(open(p).read().strip()), "01234", flavour, oracles,
+                             ("regression", "tamper:traversal_symbol")))
     if kd:
         out.append(make_case(bytes.fromhex(KD_QUADRATIC), "01234", flavour, oracles, ("regression", "kd_quadratic_stacks")))
     return out
@@ -697,3 +706,493 @@ def foreign_corrupt_cases(rng, tier, flavour="asan"):
 
 def build_error_case():
     return [Case("rselftest bigalloc", model=False, exe=EXE)]
+
+
+# ================================================================== structure-aware field corruption
+# Offsets of the small-integer fields of a stream: header-level fields parsed here (sequential and kd-tree layouts are
+# fixed), Edgebreaker fields from the `at:` offset tags of the Lean decoder model (driver op `ebtrace`).
+
+class _Rd:
+    def __init__(self, b, pos=0):
+        self.b, self.pos = b, pos
+
+    def u8(self):
+        if self.pos >= len(self.b):
+            raise IndexError
+        self.pos += 1
+        return self.b[self.pos - 1]
+
+    def u32(self):
+        if self.pos + 4 > len(self.b):
+            raise IndexError
+        self.pos += 4
+        return int.from_bytes(self.b[self.pos - 4:self.pos], "little")
+
+    def varint(self):
+        v, sh = 0, 0
+        for _ in range(10):
+            x = self.u8()
+            v |= (x & 0x7f) << sh
+            sh += 7
+            if not x & 0x80:
+                return v
+        raise IndexError
+
+    def skip(self, n):
+        if self.pos + n > len(self.b):
+            raise IndexError
+        self.pos += n
+
+
+class Field:
+    """kind: 'byte' | 'u32' | 'varint' | 'nibbles' (a run of 32-bit words read 4 bits at a time, MSB first)"""
+    def __init__(self, off, kind, name, value=0, length=1):
+        self.off, self.kind, self.name, self.value, self.length = off, kind, name, value, length
+
+
+def _count_field(r, fields, fixed, name):
+    o = r.pos
+    v = r.u32() if fixed else r.varint()
+    fields.append(Field(o, "u32" if fixed else ("byte" if r.pos - o == 1 else "varint"), name, v, r.pos - o))
+    return v
+
+
+def _att_descs(r, fields, ver, tag):
+    n = _count_field(r, fields, ver < 0x0200, tag + ".num_attributes")
+    if n > 64:
+        raise IndexError
+    for i in range(n):
+        for nm in ("att_type", "data_type", "num_components", "normalized"):
+            fields.append(Field(r.pos, "byte", f"{tag}.{nm}", r.b[r.pos] if r.pos < len(r.b) else 0))
+            r.u8()
+        if ver < 0x0103:
+            r.skip(2)
+        else:
+            _count_field(r, fields, False, tag + ".unique_id")
+    return n
+
+
+def _bit_section(r, fields, kind, ver, name):
+    """RAnsBitDecoder / DirectBitDecoder section; returns (data offset, size)"""
+    if kind == "rans":
+        fields.append(Field(r.pos, "byte", name + ".prob_zero", r.b[r.pos] if r.pos < len(r.b) else 0))
+        r.u8()
+        size = _count_field(r, fields, ver < 0x0202, name + ".size")
+    else:
+        size = _count_field(r, fields, True, name + ".size_in_bytes")
+    o = r.pos
+    r.skip(size)
+    return o, size
+
+
+def stream_fields(data, trace=None):
+    """list of Field for the parts of `data` whose layout is known; best effort, stops where the layout ends"""
+    b = bytes(data)
+    fields = []
+    if len(b) < 11 or b[:5] != b"DRACO":
+        return fields
+    for o, nm in ((5, "major"), (6, "minor"), (7, "encoder_type"), (8, "encoder_method"), (9, "flags_lo"), (10, "flags_hi")):
+        fields.append(Field(o, "byte", "header." + nm, b[o]))
+    ver = b[5] << 8 | b[6]
+    typ, method, flags = b[7], b[8], b[9] | b[10] << 8
+    if flags & 0x8000 or typ > 1:
+        return fields
+    r = _Rd(b, 11)
+    try:
+        if typ == 0:
+            _count_field(r, fields, True, "pc.num_points")
+            nd = r.b[r.pos]
+            fields.append(Field(r.pos, "byte", "num_attributes_decoders", nd))
+            r.u8()
+            if nd != 1:
+                return fields
+            natt = _att_descs(r, fields, ver, "att")
+            if method == 0:
+                for i in range(natt):
+                    fields.append(Field(r.pos, "byte", "seq.decoder_type", r.b[r.pos]))
+                    r.u8()
+                return fields
+            if ver < 0x0203:
+                return fields
+            level = r.b[r.pos]
+            fields.append(Field(r.pos, "byte", "kd.compression_level", level))
+            r.u8()
+            _count_field(r, fields, True, "kd.bit_length")
+            _count_field(r, fields, True, "kd.num_points")
+            if level > 6:
+                return fields
+            if level >= 4:
+                for i in range(33):
+                    _bit_section(r, fields, "rans", ver, f"kd.numbers[{i}]")
+            elif level >= 2:
+                _bit_section(r, fields, "rans", ver, "kd.numbers")
+            else:
+                _bit_section(r, fields, "direct", ver, "kd.numbers")
+            _bit_section(r, fields, "direct", ver, "kd.remaining_bits")
+            o, size = _bit_section(r, fields, "direct", ver, "kd.axis")
+            fields.append(Field(o, "nibbles", "kd.axis.words", 0, size))
+            _bit_section(r, fields, "direct", ver, "kd.half")
+            return fields
+        if method == 0:
+            nf = _count_field(r, fields, ver < 0x0202, "mesh.num_faces")
+            np_ = _count_field(r, fields, ver < 0x0202, "mesh.num_points")
+            cm = r.b[r.pos]
+            fields.append(Field(r.pos, "byte", "mesh.connectivity_method", cm))
+            r.u8()
+            if cm == 0:
+                return fields
+            if np_ < 256:
+                r.skip(3 * nf)
+            elif np_ < 65536:
+                r.skip(6 * nf)
+            elif np_ < (1 << 21) and ver >= 0x0202:
+                for _ in range(3 * nf):
+                    r.varint()
+            else:
+                r.skip(12 * nf)
+            nd = r.b[r.pos]
+            fields.append(Field(r.pos, "byte", "num_attributes_decoders", nd))
+            r.u8()
+            if nd != 1:
+                return fields
+            natt = _att_descs(r, fields, ver, "att")
+            for i in range(natt):
+                fields.append(Field(r.pos, "byte", "seq.decoder_type", r.b[r.pos]))
+                r.u8()
+            return fields
+        # Edgebreaker
+        fields.append(Field(r.pos, "byte", "eb.traversal_decoder_type", r.b[r.pos]))
+        r.u8()
+        if ver < 0x0202:
+            _count_field(r, fields, ver < 0x0200, "eb.num_new_vertices")
+        for nm in ("eb.num_encoded_vertices", "eb.num_faces"):
+            _count_field(r, fields, ver < 0x0200, nm)
+        fields.append(Field(r.pos, "byte", "eb.num_attribute_data", r.b[r.pos]))
+        r.u8()
+        for nm in ("eb.num_encoded_symbols", "eb.num_encoded_split_symbols"):
+            _count_field(r, fields, ver < 0x0200, nm)
+    except IndexError:
+        return fields
+    if trace:
+        n = len(b)
+        try:
+            for t in trace.split(" ", 1)[1].split(","):
+                f = t.split(":")
+                if f[0] != "at" or len(f) < 3:
+                    continue
+                k = f[1]
+                if k == "att_decoders":
+                    o = n - int(f[2])
+                    nd = b[o]
+                    fields.append(Field(o, "byte", "num_attributes_decoders", nd))
+                    per = 3 if ver >= 0x0102 else 2
+                    for i in range(min(nd, 16)):
+                        for j, nm in enumerate(("att_data_id", "decoder_type", "traversal_method")[:per]):
+                            p = o + 1 + per * i + j
+                            if p < n:
+                                fields.append(Field(p, "byte", f"eb.decoder[{i}].{nm}", b[p]))
+                    # DecodeAttributesDecoderData of every decoder follows: descriptors, then one decoder type per attribute
+                    try:
+                        rr = _Rd(b, o + 1 + per * nd)
+                        for i in range(min(nd, 16)):
+                            na = _att_descs(rr, fields, ver, "eb.att")
+                            for j in range(na):
+                                fields.append(Field(rr.pos, "byte", "eb.seq_decoder_type", rr.b[rr.pos]))
+                                rr.u8()
+                    except IndexError:
+                        pass
+                elif k in ("constrained_mode", "normal_mode", "valence_contexts", "rans", "traversal", "orientations"):
+                    o = n - int(f[2])
+                    if 0 <= o < n:
+                        fields.append(Field(o, "byte", "eb." + k, b[o]))
+                    if k in ("traversal", "orientations") and 0 <= o < n:
+                        try:
+                            _count_field(_Rd(b, o), fields, False, "eb." + k + ".size")
+                        except IndexError:
+                            pass
+                elif k == "events":
+                    o = n - int(f[2])
+                    try:
+                        rr = _Rd(b, o)
+                        ne = _count_field(rr, fields, False, "eb.num_topology_splits")
+                        for _ in range(min(2 * ne, 16)):
+                            _count_field(rr, fields, False, "eb.split_id_delta")
+                    except IndexError:
+                        pass
+        except (ValueError, IndexError):
+            pass
+    return fields
+
+
+SMALL_VALUES = (0, 1, 2, 3, 4, 5, 6, 7, 8, 0x0f, 0x10, 0x7e, 0x7f, 0x80, 0x81, 0xfe, 0xff)
+
+
+def field_mutations(data, fields, exhaustive=False, max_nibbles=24):
+    """(tag, bytes): every located small-integer field set to 0, 1, 2, …, value±1, 0x7f, 0x80, 0xff (every value of
+    the byte when `exhaustive`), every axis nibble to every value, counts also to 2^16, 2^31-1, 2^32-1"""
+    out = []
+    seen = set()
+    for f in fields:
+        if (f.off, f.kind) in seen:
+            continue
+        seen.add((f.off, f.kind))
+        if f.kind == "byte":
+            vals = range(256) if exhaustive else sorted(set(SMALL_VALUES) | {(f.value + 1) & 255, (f.value - 1) & 255,
+                                                                           (f.value + 2) & 255, f.value ^ 0x80})
+            for v in vals:
+                if v != data[f.off]:
+                    x = bytearray(data)
+                    x[f.off] = v
+                    out.append(("field:" + f.name.split("[")[0], bytes(x)))
+        elif f.kind in ("u32", "varint"):
+            vals = sorted({0, 1, 2, max(0, f.value - 1), f.value + 1, 2 * f.value, 0x7f, 0x80, 0xff, 0x100, 1 << 16, (1 << 31) - 1,
+                           1 << 31, (1 << 32) - 1, (1 << 32) - 4, 0x7ffffffc, len(data), len(data) + 1})
+            for v in vals:
+                if v == f.value:
+                    continue
+                if f.kind == "u32":
+                    out.append(("field:" + f.name.split("[")[0], mut_u32(data, f.off, v)))
+                else:
+                    out.append(("field:" + f.name.split("[")[0], data[:f.off] + varint(v) + data[f.off + f.length:]))
+                    if v >= 1 << 31:
+                        # 10-byte varint with the high bits set (64-bit size fields)
+                        out.append(("field:" + f.name.split("[")[0], data[:f.off] + varint((1 << 64) - 1 - (v & 0xff)) + data[f.off + f.length:]))
+        elif f.kind == "nibbles":
+            words = f.length // 4
+            k = 0
+            for w in range(words):
+                for nb in range(8):
+                    if k >= max_nibbles and not exhaustive:
+                        break
+                    k += 1
+                    bo = f.off + 4 * w + 3 - nb // 2
+                    for v in range(16):
+                        x = bytearray(data)
+                        x[bo] = (x[bo] & 0x0f) | (v << 4) if nb % 2 == 0 else (x[bo] & 0xf0) | v
+                        if x[bo] != data[bo]:
+                            out.append(("field:" + f.name, bytes(x)))
+    return out
+
+
+def corner_grid(rng):
+    """small quad grid with shared positions, a per-corner attribute (every corner its own value: points >= 2 x
+    vertices) and a per-vertex generic attribute: three Edgebreaker attribute decoders"""
+    n = rng.randint(2, 3)
+    faces_v = []
+    for y in range(n):
+        for x in range(n):
+            a, b, c, d = y * (n + 1) + x, y * (n + 1) + x + 1, (y + 1) * (n + 1) + x, (y + 1) * (n + 1) + x + 1
+            faces_v += [(a, b, d), (a, d, c)]
+    nv = (n + 1) * (n + 1)
+    ncorn = 3 * len(faces_v)
+    faces = [(3 * i, 3 * i + 1, 3 * i + 2) for i in range(len(faces_v))]
+    cv = [v for f in faces_v for v in f]
+    pos = b"".join(struct.pack("<fff", float(v % (n + 1)), float(v // (n + 1)), G.f32(0.1 * ((v * 7) % 5))) for v in range(nv))
+    atts = [G.Attr(G.POSITION, G.DT["f32"], 3, False, 0, nv, list(cv), pos),
+            G.Attr(rng.choice([G.COLOR, G.TEX_COORD, G.GENERIC]), G.DT["u8"], 2, False, 1, ncorn, list(range(ncorn)),
+                   bytes(rng.getrandbits(8) for _ in range(2 * ncorn))),
+            G.Attr(G.GENERIC, G.DT[rng.choice(["u8", "u16", "i16"])], 1, False, 2, nv, list(cv), b"")]
+    a = atts[2]
+    a.values = bytes(rng.getrandbits(8) for _ in range(nv * a.stride))
+    g = G.Geom(True, ncorn, faces, atts)
+    g.family = "corner_grid"
+    return g
+
+
+def kd_int_cloud(rng):
+    """integer point cloud for the kd-tree coder with >= 64 points per node at the root and total dimension 2..8"""
+    n = rng.choice([70, 100, 130, 200])
+    dims = rng.choice([(2,), (3,), (3, 1), (3, 2), (2, 2, 1), (3, 3, 2), (3, 4), (1, 1)])
+    atts = []
+    for k, c in enumerate(dims):
+        dt = rng.choice(["u32", "u16", "u32", "i32", "u8"])
+        t = G.POSITION if k == 0 else G.GENERIC
+        lim = {"u32": 1 << rng.choice([8, 16, 24]), "u16": 1 << 12, "i32": 1 << 14, "u8": 256}[dt]
+        fmt = "<" + G.DT_FMT[G.DT[dt]] * c
+        vals = b"".join(struct.pack(fmt, *[rng.randrange(lim) for _ in range(c)]) for _ in range(n))
+        atts.append(G.Attr(t, G.DT[dt], c, False, k, n, None, vals))
+    g = G.Geom(False, n, [], atts)
+    g.family = "kd_int_cloud"
+    return g
+
+
+def small_seq_mesh(rng):
+    """sequential meshes with very few points (raw and compressed indices)"""
+    g = G.rand_mesh(rng, rng.choice([2, 3, 4, 6]), specs=[(G.POSITION, G.DT[rng.choice(["f32", "i16", "u8"])], 3, False, 0)] +
+                    ([(G.GENERIC, G.DT[rng.choice(["u8", "i8", "u16"])], rng.randint(1, 3), False, 1)] if rng.random() < 0.6 else []))
+    g.family = "small_seq_mesh"
+    return g
+
+
+def structured_bases(rng, n_each):
+    """valid streams on which field damage is visible: (Stream, model trace or None)"""
+    geoms, lines = [], []
+    for _ in range(n_each):
+        g = corner_grid(rng)
+        sp = rng.choice([0, 1, 3, 5, 7, 10])
+        lines.append(f"enc method=1 speed={sp},{sp} " + (f"expert=1 submethod={rng.choice([0, 2])} " if rng.random() < 0.4 else "")
+                     + "q0=" + str(rng.choice([8, 11, 14])) + " -- " + g.to_text())
+        geoms.append(g)
+        g = seam_grid(rng)
+        lines.append(f"enc method=1 speed={sp},{sp} q0=10 -- " + g.to_text())
+        geoms.append(g)
+        g = kd_int_cloud(rng)
+        sp = rng.choice([0, 1, 2, 3, 4, 4, 6, 8])
+        lines.append(f"enc method=1 speed={sp},{sp} -- " + g.to_text())
+        geoms.append(g)
+        g = small_seq_mesh(rng)
+        toks = ["method=0"] + (["expert=1", f"g:compress_connectivity={rng.choice([0, 1])}"] if rng.random() < 0.7 else [])
+        lines.append("enc " + " ".join(toks) + " -- " + g.to_text())
+        geoms.append(g)
+    outs = run_encoder(lines, "encs")
+    if outs is None:
+        return None
+    streams = []
+    for g, o in zip(geoms, outs):
+        if o.startswith("ok "):
+            data = bytes.fromhex(o.split()[1])
+            if len(data) <= 4000:
+                streams.append(Stream("struct:" + g.family, data, g.is_mesh, g.family, sorted({a.att_type for a in g.atts})))
+    return streams
+
+
+def model_traces(streams):
+    """`ebtrace` output of the Lean driver for the Edgebreaker streams (None when the driver is unavailable)"""
+    from vlib import leanside
+    eb = [s for s in streams if s.cls == "eb"]
+    res = {}
+    if not eb or not os.path.exists(leanside.driver_path()):
+        return res
+    wd = os.path.join(C.CACHE, "run", f"robusttrace-{os.getpid()}")
+    os.makedirs(wd, exist_ok=True)
+    f = os.path.join(wd, "trace.ops.txt")
+    with open(f, "w") as fh:
+        fh.write("\n".join("ebtrace - " + s.data.hex() for s in eb) + "\n")
+    rc, outs, _ = leanside.run_driver(f, timeout=600)
+    import shutil
+    shutil.rmtree(wd, ignore_errors=True)
+    if rc == 0 and len(outs) == len(eb):
+        for s, o in zip(eb, outs):
+            res[id(s)] = o
+    return res
+
+
+def structured_cases(rng, tier, flavour, oracles, streams=None, n_each=None, per_stream=None):
+    """field-level corruption of every located small-integer field of the structured base streams (and of `streams`)"""
+    thorough = tier == "thorough"
+    bases = structured_bases(rng, n_each or (10 if thorough else 3))
+    if bases is None:
+        return []
+    bases = bases + list(streams or [])
+    traces = model_traces(bases)
+    out = []
+    for s in bases:
+        fields = stream_fields(s.data, traces.get(id(s)))
+        muts = field_mutations(s.data, fields, exhaustive=thorough and len(s.data) < 400)
+        if per_stream and len(muts) > per_stream:
+            muts = rng.sample(muts, per_stream)
+        skip = "01234" if rng.random() < 0.6 else "".join(str(t) for t in s.present)[:1] or "0"
+        out.append(make_case(s.data, skip, flavour, oracles, ("valid", s.cls, "fam:" + s.family)))
+        for tag, data in muts:
+            out.append(make_case(data, skip, flavour, oracles, (tag, "mut:" + s.cls), base=s.data))
+    return out
+
+
+# ================================================================== tamper-hook campaign (C02 "semantic corruption")
+# The Edgebreaker encoders of the tree under test call draco_verif_tamper(kind, &value) just before a value is entropy
+# coded (src/draco/core/verif_hooks.h, -DDRACO_VERIF). Harness ops: `tcount <enc args>` lists the values per kind,
+# `tenc <kind> <occurrence> <value> <enc args>` re-encodes with exactly one value replaced. Every stream produced this
+# way is well formed at the byte level (entropy coded consistently) but describes an impossible mesh; it becomes an
+# ordinary `rdec` case (all entry points, guard pages, validity, allocation monitor, watchdog, Lean model).
+TAMPER_KINDS = {0: "traversal_symbol", 1: "start_face_interior", 2: "attribute_seam", 3: "valence_context_symbol",
+                4: "split_source_symbol_id", 5: "split_split_symbol_id", 6: "split_source_edge", 7: "crease_edge_flag"}
+
+
+def tamper_alternatives(kind, v):
+    if kind == 0:
+        return [x for x in (0, 1, 3, 5, 7) if x != v] + [2, 4, 6]
+    if kind == 3:
+        return [x for x in (0, 1, 2, 3, 4) if x != v] + [5]
+    if kind in (1, 2, 6, 7):
+        return [1 - (v & 1)]
+    # symbol ids of split events
+    return sorted({0, max(0, v - 1), v + 1, v + 2, 2 * v + 1, 0x7fffffff, 0xffffffff} - {v})
+
+
+def tamper_meshes(rng, tier):
+    """(enc argument string) for small Edgebreaker meshes: the ebcases topology families at 4..40 faces with seams,
+    holes, handles, split events; speeds 0..10; standard and valence traversal"""
+    from . import ebcases
+    thorough = tier == "thorough"
+    topos = [t for t in ebcases.topologies(rng, "quick") if 4 <= len(t[1][1]) <= 40]
+    for _ in range(6 if not thorough else 20):
+        topos.append(("grid_holes", ebcases.with_holes(rng, ebcases.grid(rng, rng.randint(2, 4), rng.randint(2, 4)), rng.choice([0.15, 0.3]))))
+        topos.append(("torus", ebcases.torus(rng, rng.randint(3, 4), rng.randint(3, 4))))
+    topos = [t for t in topos if 4 <= len(t[1][1]) <= 40]
+    out = []
+    n = 60 if thorough else 24
+    for i in range(n):
+        name, topo = rng.choice(topos)
+        extra = rng.choice([e for _, e in ebcases.ATT_SETS])
+        g = ebcases.build(rng, topo, extra, pos_dtype=rng.choice(["f32", "f32", "i16"]))
+        sp = rng.choice([0, 1, 2, 3, 4, 5, 6, 7, 8, 9, 10])
+        toks, _ = ebcases.options(rng, g, speed=sp, submethod=[0, 2][i % 2], split=rng.choice([None, 0, 1]))
+        toks = [t for t in toks if not t.startswith(("track", "skip"))]
+        out.append((name, " ".join(toks) + " -- " + g.to_text()))
+    return out
+
+
+def tamper_streams(rng, tier, budget):
+    """[(kind, mesh family, stream bytes)]: one occurrence of one kind replaced by one alternative value"""
+    meshes = tamper_meshes(rng, tier)
+    outs = run_encoder(["tcount " + m for _, m in meshes], "tcount")
+    if outs is None:
+        return None
+    variants = []
+    for (name, m), o in zip(meshes, outs):
+        if not o.startswith("ok ") or " | " not in o:
+            continue
+        for tok in o.split(" | ")[1].split():
+            k, _, vs = tok.partition(":")
+            if vs in ("-", ""):
+                continue
+            vals = [int(x) for x in vs.split(",")]
+            for occ, v in enumerate(vals):
+                for alt in tamper_alternatives(int(k), v):
+                    variants.append((int(k), occ, alt, name, m))
+    if budget is not None and len(variants) > budget:
+        # stratified by kind: rare kinds (split events, valence symbols, crease flags) are kept first
+        by_kind = {}
+        for v in variants:
+            by_kind.setdefault(v[0], []).append(v)
+        share = max(1, budget // max(1, len(by_kind)))
+        picked, rest = [], []
+        for k, vs in by_kind.items():
+            rng.shuffle(vs)
+            picked += vs[:share]
+            rest += vs[share:]
+        rng.shuffle(rest)
+        variants = picked + rest[:max(0, budget - len(picked))]
+    outs = run_encoder([f"tenc {k} {occ} {alt} {m}" for (k, occ, alt, name, m) in variants], "tenc")
+    if outs is None:
+        return None
+    res = []
+    for (k, occ, alt, name, m), o in zip(variants, outs):
+        t = o.split()
+        if len(t) == 3 and t[0] == "ok" and t[2] == "1":
+            res.append((k, name, bytes.fromhex(t[1])))
+    return res
+
+
+def tamper_cases(rng, tier, flavour, oracles, budget):
+    ts = tamper_streams(rng, tier, budget)
+    if ts is None:
+        return []
+    out = []
+    seen = set()
+    for k, name, data in ts:
+        if data in seen:
+            continue
+        seen.add(data)
+        out.append(make_case(data, "01234", flavour, oracles, ("tamper:" + TAMPER_KINDS[k], "tamper-topo:" + name)))
+    return out
